@@ -14,6 +14,7 @@ var checks = map[string][]HarnessSpec{
 	},
 	"C04": {
 		{Name: "verifC04Rules", Pkg: ".", Labels: []string{"ran"}},
+		{Name: "verifC04RetryRules", Pkg: ".", Labels: []string{"retry-ran"}},
 	},
 	"C05": {
 		{Name: "verifC05Raw", Pkg: ".", Labels: []string{"passed", "refused"}},
@@ -55,6 +56,7 @@ var checks = map[string][]HarnessSpec{
 		{Name: "verifC12Raw", Pkg: "./dns", Labels: []string{"decoded", "rejected"}, Quick: TierOpts{LoopLimit: 300}, Thorough: TierOpts{LoopLimit: 300}},
 		{Name: "verifC12Names", Pkg: "./dns", Labels: []string{"decoded", "rejected"}, Quick: TierOpts{LoopLimit: 300}, Thorough: TierOpts{LoopLimit: 300}},
 		{Name: "verifC12RData", Pkg: "./dns", Labels: []string{"decoded", "rejected"}, Quick: TierOpts{LoopLimit: 300}, Thorough: TierOpts{LoopLimit: 300}},
+		{Name: "verifC12Cycles", Pkg: "./dns", Labels: []string{"rejected"}, Quick: TierOpts{LoopLimit: 300}, Thorough: TierOpts{LoopLimit: 300}},
 	},
 	"C13": {
 		{Name: "verifC13RoundTrip", Pkg: "./dns", Labels: []string{"roundtrip"}},
